@@ -98,6 +98,15 @@ type Fn struct {
 	Faults []int    `json:"faults,omitempty"` // per execution; beyond the list: ok
 	Bank   int      `json:"bank,omitempty"`   // >0: declared function bank entry (Bank-1)
 	Dur    int      `json:"dur,omitempty"`    // mock clock advance inside the body (ns)
+	// Reenter: during its first execution the body calls back into the
+	// container: Invoke on scope S of a function with parameters P, ignoring
+	// the returned error (re-entrant use from inside user code, C02).
+	Reenter *Reenter `json:"reenter,omitempty"`
+}
+
+type Reenter struct {
+	S int     `json:"s"`
+	P []Param `json:"p"`
 }
 
 type Param struct {
@@ -291,6 +300,13 @@ func (f *Fn) Short() string {
 	}
 	if f.Bank > 0 {
 		s += fmt.Sprintf("#bank%d", f.Bank-1)
+	}
+	if f.Reenter != nil {
+		var ps []string
+		for _, p := range f.Reenter.P {
+			ps = append(ps, p.Short())
+		}
+		s += fmt.Sprintf("{body: invoke@%d(%s)}", f.Reenter.S, strings.Join(ps, ","))
 	}
 	return s
 }
